@@ -314,6 +314,8 @@ func (fr *Frame) preludeCall(st *State, name string, fn *ssa.Function, args []Va
 			return Val{T: ok}, true
 		}
 		return Val{T: val}, true
+	case "__callArgOf":
+		return Val{T: Select(ex.get(st, "CallArg_"+sanitize(constString(cc.Args[0])), ArraySort(SInt, SRef)), args[1].T)}, true
 	case "__callNOf":
 		return Val{T: ex.get(st, "CallN_"+sanitize(constString(cc.Args[0])), SInt)}, true
 	case "__callRetOf":
@@ -512,8 +514,22 @@ func (fr *Frame) applyContract(st *State, fn *ssa.Function, c *LoadedContract, a
 		ret := TFalse
 		if len(results) > 0 && results[0].T != nil && results[0].T.Sort == SBool {
 			ret = results[0].T
+		} else if k := len(results) - 1; k >= 0 && results[k].T != nil && results[k].T.Sort == SIfc && types.Identical(res.At(k).Type(), types.Universe.Lookup("error").Type()) {
+			// a call whose (last) result is an error is logged as "succeeded"
+			ret = Eq(results[k].T, V("iface_nil", SIfc))
 		}
 		ex.set(st, "CallRet"+sfx, Store(ex.get(st, "CallRet"+sfx, ArraySort(SInt, SBool)), n, ret))
+		// the first reference-typed argument after the receiver (a map, pointer or channel handed to the callee)
+		first := 0
+		if fn.Signature.Recv() != nil {
+			first = 1
+		}
+		for k := first; k < len(args); k++ {
+			if args[k].T != nil && args[k].T.Sort == SRef {
+				ex.set(st, "CallArg"+sfx, Store(ex.get(st, "CallArg"+sfx, ArraySort(SInt, SRef)), n, args[k].T))
+				break
+			}
+		}
 		ex.set(st, "CallN"+sfx, Add(n, IntLit(1)))
 	}
 	switch len(results) {
